@@ -591,3 +591,59 @@ func (g *Gen) queueSweep(fn *ssa.Function, props []string) {
 	}
 	g.sweep = append(g.sweep, sweepItem{fn, props})
 }
+
+// staticPure: syntactic check that a function of this module (and everything it statically calls inside
+// the module) writes no memory visible to its caller: no stores through parameters, fields, elements or
+// globals, no map updates, channel operations, goroutines or defers; external callees must have an assumed
+// contract without a modifies clause. Used for contract-less helpers that cannot be executed in place.
+func (g *Gen) staticPure(fn *ssa.Function, seen map[*ssa.Function]bool) bool {
+	if fn == nil || len(fn.Blocks) == 0 {
+		return false
+	}
+	if seen[fn] {
+		return true
+	}
+	seen[fn] = true
+	for _, b := range fn.Blocks {
+		for _, in := range b.Instrs {
+			switch x := in.(type) {
+			case *ssa.Store:
+				if root, ok := rootAlloc(x.Addr); ok && !root.Heap {
+					continue
+				}
+				if al, ok := x.Addr.(*ssa.Alloc); ok && !al.Heap {
+					continue
+				}
+				return false
+			case *ssa.MapUpdate, *ssa.Send, *ssa.Go, *ssa.Defer, *ssa.Select, *ssa.Panic:
+				return false
+			case *ssa.Call:
+				cc := x.Common()
+				if cc.IsInvoke() {
+					return false
+				}
+				if _, ok := cc.Value.(*ssa.Builtin); ok {
+					if cc.Value.Name() == "append" || cc.Value.Name() == "copy" || cc.Value.Name() == "delete" {
+						return false
+					}
+					continue
+				}
+				callee := cc.StaticCallee()
+				if callee == nil {
+					return false
+				}
+				if len(callee.Blocks) > 0 && callee.Pkg != nil && strings.HasPrefix(callee.Pkg.Pkg.Path(), modPath) {
+					if !g.staticPure(callee, seen) {
+						return false
+					}
+					continue
+				}
+				ct, _ := g.contractForFn(callee)
+				if ct == nil || ct.HavocArgs || len(ct.Modifies) > 0 {
+					return false
+				}
+			}
+		}
+	}
+	return true
+}
